@@ -113,7 +113,10 @@ class Unit:
             nm = em.names[cid]
             if nm in em.drop:
                 continue
-            sig, body = em.emit_function(cid)
+            try:
+                sig, body = em.emit_function(cid)
+            except Abort as a:
+                raise Abort(f'in {nm}: {a}')
             protos.append(sig + ';')
             contract = em.contracts.get(nm, '')
             if body is None:
